@@ -181,7 +181,9 @@ class Write:
                     a = c['ins'][0]
                     if 'O' in a['axdtype'] and rng.random() < 0.5: continue
                     stats['write_kind']['assign:' + o[1]] += 1
-                    cases.append({'kind': 'assign', 'arr': a, 'put': o[1:5], 'fmt': 'NETCDF4'})
+                    as_da = rng.random() < 0.3      # the assigned value is a DimArray over the axes of the selection
+                    stats['assigned_value'][('DimArray' if as_da else 'scalar / ndarray')] += 1
+                    cases.append({'kind': 'assign', 'arr': a, 'put': o[1:5], 'fmt': 'NETCDF4', 'as_dimarray': as_da})
                     if len(cases) >= n: break
             else:
                 # a variable over an unlimited leading dimension, grown by successive assignments beyond the end
@@ -216,6 +218,14 @@ class Write:
                     spelling, form, tol, rhs = c['put']
                     idx, kw = ops.py_form(form); v = ops.py_rhs(rhs)
                     if kw: raise Unsupported('axis= form')
+                    key0 = idx if not (isinstance(idx, tuple) and len(idx) == 1) else idx[0]
+                    if isinstance(idx, tuple) and len(idx) == 0: key0 = ()
+                    if c.get('as_dimarray'):
+                        try:
+                            sel = mem[key0] if spelling == 'setitem' else getattr(mem, spelling)[key0]
+                            if isinstance(sel, D.DimArray) and sel.ndim > 0:
+                                v = D.DimArray(np.array(np.broadcast_to(v, sel.shape), dtype=float), axes=[ax.copy() for ax in sel.axes])
+                        except Exception: pass
                     def assign(x):
                         key = idx if not (isinstance(idx, tuple) and len(idx) == 1) else idx[0]
                         if isinstance(idx, tuple) and len(idx) == 0: key = ()
